@@ -91,9 +91,10 @@ func RunScheduled(t *Tape, strategy int, procs []*Proc, bodies []func() error) *
 		sp := sp
 		go func() {
 			<-sp.resume
+			// deferred: a process that stops in the exit seam (runtime.Goexit) unwinds this goroutine too
+			defer func() { s.events <- schedEvent{sp, true} }()
 			done := make(chan struct{})
 			procBody(sp.p, sp.fn, done)
-			s.events <- schedEvent{sp, true}
 		}()
 	}
 
